@@ -151,7 +151,12 @@ pub fn judge_lazy(compressed: bool, input: &[u8], order: u64, replay: &dyn Fn() 
             } else {
                 acc.class("decode-error");
             }
-            acc.key(h64(&input[..n]) ^ compressed as u64);
+            if light {
+                // distinct by construction (the site skips pairs that leave either byte unchanged)
+                acc.nontrivial();
+            } else {
+                acc.key(h64(&input[..n]) ^ compressed as u64);
+            }
             // independence from what follows: same verdict on the frame alone
             if input.len() > n && !light {
                 let mut alone = BytesMut::from(&input[..n]);
@@ -486,6 +491,10 @@ pub fn sites(tier: Tier) -> Vec<Site> {
                 let (name, compressed, frame, p) = &targets[(i / 65536) as usize];
                 let a = ((i % 65536) >> 8) as u8;
                 let b = (i & 255) as u8;
+                if a == frame[*p] || b == frame[*p + 1] {
+                    // distance <= 1: the mutation-1 site
+                    return;
+                }
                 let mut buf = frame.clone();
                 buf[*p] = a;
                 buf[*p + 1] = b;
